@@ -822,7 +822,7 @@ func RunCases(run *sim.Run, label string, n int, cfgFor func(r *sim.Rng, i int) 
 		one(c.Case)
 		return
 	}
-	sim.Parallel(n, 16, one)
+	sim.ParallelCases(n, 16, one)
 }
 
 func minInt(a, b int) int {
